@@ -3,7 +3,7 @@
 # Runs the check against a scratch copy of /repo with the patch applied, from a scratch copy of /verif (so that concurrent work on
 # /verif and /repo is not disturbed). Equivalent to: git -C /repo apply patch.diff; ./check PID; git -C /repo checkout -- .
 M=$1; P=$2; T=${3:-quick}
-S=/var/tmp/vseed
+S=${VSEED:-/var/tmp/vseed}
 mkdir -p $S
 rsync -a --delete --exclude .git /verif/ $S/verif/
 rsync -a --delete --exclude .git /repo/ $S/repo/
